@@ -689,6 +689,80 @@ func c04(r *Run) {
 		r.Dist["keepfmt_histories"]++
 	}
 	dyntpl.VerifResetRegistry()
+	// --- IDs and keys paired freely (regfree.go) ---
+	regFreePairings(r, "", "after a sequence of registrations a lookup by a name does not give the template most recently registered under that name", 4, r.N(3000, 100000))
+	// --- a Parse that FAILED leaves nothing behind: the next Parse of a well-formed source yields that source's tree ---
+	c04AfterFailedParse(r)
+}
+
+// c04AfterFailedParse: "Parsing a source always yields a tree that renders that source, regardless of which templates
+// were parsed ... before" — also when the parses before were REJECTED (unclosed or surplus block tags at some depth,
+// unterminated tags), on the same goroutine (pooled parser state).
+func c04AfterFailedParse(r *Run) {
+	bad := []string{"{% if a == 1 %}x", "{% for i := 0; i < 2; i++ %}x", "{% switch a %}{% case 1 %}x", "x{% endif %}", "x{% endfor %}", "x{% endswitch %}",
+		"{% if a == 1 %}{% for _, v := range l %}{% switch v %}", "{% if a == 1 %}{% if b == 2 %}{% if c == 3 %}x{% endif %}", "{% for _, v := range l %}{% endif %}{% endfor %}",
+		"{% if a == 1 %}x{% endfor %}", "a{%= v", "{% if a == 1 %}x{% else %}y", "{% jsonquote %}{% if a == 1 %}"}
+	good := []string{"plain", "G[{%= v %}]", "{% if v == \"!\" %}yes{% else %}no{% endif %}", "{% for i := 0; i < 2; i++ %}<{%= i %}>{% endfor %}.", "{% switch v %}{% case \"!\" %}one{% default %}other{% endswitch %}"}
+	// expected: what the same source renders when nothing was parsed before it
+	renderOf := func(tree *dyntpl.Tree) string {
+		dyntpl.RegisterTplKey("afterfail", tree)
+		ctx := dyntpl.NewCtx()
+		ctx.SetString("v", "!")
+		res := renderSafe("afterfail", ctx)
+		out := string(res.Out)
+		if res.ErrStr() != "ok" {
+			out += " " + res.ErrStr()
+		}
+		return out
+	}
+	var want []string
+	for _, g := range good {
+		dyntpl.VerifResetRegistry()
+		tree, err, pan := parseSafe([]byte(g), false)
+		if err != nil || pan != "" {
+			r.Internal("parse-after-failed-parse: a good source does not parse: " + g)
+			return
+		}
+		want = append(want, renderOf(tree))
+	}
+	if want[0] != "plain" || want[1] != "G[!]" || want[3] != "<0><1>." {
+		r.Internal("parse-after-failed-parse: unexpected reference outputs " + strings.Join(want, " | "))
+		return
+	}
+	for bi := range bad {
+		for n := 1; n <= 3; n++ {
+			for gi, g := range good {
+				dyntpl.VerifResetRegistry()
+				var hist []string
+				rejected := true
+				for k := 0; k < n; k++ {
+					b := bad[(bi+k)%len(bad)]
+					_, err, pan := parseSafe([]byte(b), k%2 == 0)
+					hist = append(hist, fmt.Sprintf("Parse(%q) -> %v", b, err))
+					if err == nil || pan != "" {
+						rejected = false
+					}
+				}
+				src := g + fmt.Sprintf("{# %d.%d #}", bi, n)
+				tree, err, pan := parseSafe([]byte(src), false)
+				hist = append(hist, fmt.Sprintf("Parse(%q) -> %v", src, err))
+				out := ""
+				if err == nil && pan == "" {
+					out = renderOf(tree)
+				}
+				sig := fmt.Sprintf("parse-after-failed-parse bad=%d n=%d good=%d", bi, n, gi)
+				r.Count(sig, rejected)
+				r.Dist["parse_after_failed_parse"]++
+				if err != nil || pan != "" || out != want[gi] {
+					r.Violate(sig+" out="+out, "after a rejected Parse, Parse of a well-formed source does not yield a tree that renders that source",
+						map[string]any{"history": hist, "output": out, "expected": want[gi], "error": fmt.Sprint(err), "panic": pan})
+					dyntpl.VerifResetRegistry()
+					return
+				}
+			}
+		}
+	}
+	dyntpl.VerifResetRegistry()
 }
 
 func c04Judge(r *Run, c *c04Case, line, ans string, nSample *int) {
